@@ -55,6 +55,22 @@ def gen_grid(ctx, rng):
                 c["draw_kind"], c["draw_n"], c["draw_count"] = "intn", 2 * attrs["size_variation"], min(3000, 2 * L.est_pieces(c) + 64)
         stats["kinds"][ty] = stats["kinds"].get(ty, 0) + 1
         cases.append(c)
+    # an API request on a connection whose sender has gone while toxics still hold its data or close must return (and not wedge the
+    # proxy): remove / update / reset / add while a latency or slow_close toxic is draining
+    stats["requests_on_draining_connections"] = 0
+    for i in range(24 if ctx.tier == "quick" else 600):
+        D = rng.choice([2000, 6000])
+        holder = rng.choice([L.tx("latency", name="h", latency=D, jitter=0), L.tx("slow_close", name="h", delay=D), L.tx("bandwidth", name="h", rate=1)])
+        chain = ([L.tx("noop", name="p")] if rng.chance(1, 2) else []) + [holder] + ([L.tx("noop", name="q")] if rng.chance(1, 3) else [])
+        src = [{"at": 1 * L.MS, "n": rng.choice([500, 40000])}, {"at": 2 * L.MS, "n": 700}, {"at": 5 * L.MS, "close": True}]
+        at = rng.range(20, 900) * L.MS + rng.range(1, 999)
+        how = rng.choice(["remove", "remove", "reset", "update", "add"])
+        ops = [{"remove": {"at": at, "op": "remove", "name": "h"}, "reset": {"at": at, "op": "reset"},
+                "update": {"at": at, "op": "update", "name": "h", "body": '{"toxicity": 1}'},
+                "add": {"at": at, "op": "add", "toxic": L.tx("noop", name="z")}}[how]]
+        cases.append({"dir": rng.choice(["upstream", "downstream"]), "chain": chain, "src": src, "ops": ops, "horizon": 600000 * L.MS,
+                      "seed": 30000 + i, "c07": True})
+        stats["requests_on_draining_connections"] += 1
     return cases, stats
 
 
@@ -79,7 +95,8 @@ def effective_toxic(case):
     """the toxic whose attributes are in effect when the interesting chunk arrives"""
     t = json.loads(json.dumps(case["chain"][0]))
     for o in case.get("ops") or []:
-        t["attributes"].update(json.loads(o["body"])["attributes"])
+        if o.get("op") == "update" and o.get("name") == t.get("name"):
+            t["attributes"].update(json.loads(o["body"]).get("attributes") or {})
     return t
 
 
@@ -333,7 +350,8 @@ def run(ctx):
         classify=lambda w: "stage-crash" if "crashed the process" in w else ("stage-spins" if "progress" in w else "other"),
         rule="(1) every toxic type x attribute values from the int64 boundary set {min64,-2^62,-1,0,1,2,99,100,101,2^31,2^53,2^62-1,2^62,"
              "max64/100,max64/100+1,max64} x chunk sizes {1,2,99,100,101,32768}, a quarter of them arriving by update on a connection that "
-             "already carried data; a case that kills or wedges the process is found by the per-case re-run and the watchdog; (2) a real "
+             "already carried data; API requests (remove / reset / update / add) on connections whose sender has gone while a toxic still drains "
+             "their data; a case that kills or wedges the process is found by the per-case re-run and the watchdog; (2) a real "
              "toxiproxy-server fed a fuzzed request stream (model stream, mutated bodies, oversize bodies, raw bytes, boundary attributes) "
              "with a health check every 100 requests; (3) fault scenarios on real sockets after which a fresh connection must be served; "
              "non-trivial = attribute outside the documented range; distinct by JSON",
